@@ -928,6 +928,40 @@ def P1Site.namesOwnField (s : P1Site) : Bool :=
   | none => false
 
 
+/-! ### typedpy's problem texts
+
+Every problem text of a constructor rejection (fields/numbers.py, strings.py, enum.py, fields.py,
+collections_impl.py, array.py, deque_field.py, tuple_field.py, set_field.py, sized.py, map_field.py,
+structures.py TypedField) begins `Expected ` or `Does not match regular expression: `. -/
+
+def sDoesNotMatch : Text := "Does not match regular expression: ".toList
+
+def startsWithT (p t : Text) : Bool := (dropPre p t).isSome
+
+/-- the template class of typedpy's problem texts -/
+def isTypedpyProblem (p : Text) : Bool := startsWithT sExpected p || startsWithT sDoesNotMatch p
+
+/-- the parameter-free templates -/
+def fixedProblems : List Text :=
+  ["Expected a number", "Expected a positive number", "Expected a negative number or 0",
+   "Expected a negative number", "Expected a positive number or 0", "Expected a string",
+   "Expected unique items", "Expected a dict", "Expected <class 'int'>", "Expected <class 'float'>",
+   "Expected <class 'bool'>", "Expected <class 'str'>", "Expected <class 'list'>", "Expected <class 'set'>",
+   "Expected <class 'tuple'>", "Expected <class 'collections.deque'>", "Expected <class 'dict'>"].map String.toList
+
+/-- some occurrence of `pat` in `t` is followed by a typedpy problem -/
+def problemAfter (pat : Text) : Text → Bool
+  | [] => false
+  | c :: cs => (match dropPre pat (c :: cs) with
+      | some r => isTypedpyProblem r
+      | none => false) || problemAfter pat cs
+
+/-- the text after `<path>: ` has the model's shape around a typedpy problem text -/
+def bodyHasTemplate : Shape → Text → Bool
+  | .gotFirst, rest => problemAfter sSemiSp rest
+  | .gotLast, rest => isTypedpyProblem rest
+  | .plain, rest => isTypedpyProblem rest
+
 /-! ### class names typedpy itself produces
 
 The class name is the first component of every message head (`f"{cls_name}.{e}"`), so the names
